@@ -104,13 +104,53 @@ class Spec:
 _SPEC = None
 
 
+class CaseTimeout(BaseException):
+    """raised by the watchdog; a BaseException so that `except Exception` blocks in harness code let it through"""
+
+
+def _alarm(signum, frame):
+    raise CaseTimeout()
+
+
+class watchdog:
+    """with watchdog(seconds): ... raises CaseTimeout when the block burns more than `seconds` of CPU time
+    (ITIMER_PROF, so a loaded machine cannot trip it; main thread only)"""
+
+    def __init__(self, seconds):
+        self.seconds = seconds
+
+    def __enter__(self):
+        import signal
+        self.old = signal.signal(signal.SIGPROF, _alarm)
+        signal.setitimer(signal.ITIMER_PROF, self.seconds)
+
+    def __exit__(self, *a):
+        import signal
+        signal.setitimer(signal.ITIMER_PROF, 0)
+        signal.signal(signal.SIGPROF, self.old)
+        return False
+
+
 def _eval_one(c):
-    iout = _SPEC.safe_impl(c)
+    """(impl output, oracle verdict) under a watchdog: a library call that never returns is a failing input"""
+    import signal
+    limit = getattr(_SPEC, 'CASE_TIMEOUT', 120)     # CPU seconds of this process (ITIMER_PROF): immune to machine load
+    old = signal.signal(signal.SIGPROF, _alarm)
+    signal.setitimer(signal.ITIMER_PROF, limit)
     try:
-        f = _SPEC.oracle(c, iout)
-    except Exception as e:
-        f = f'oracle raised {type(e).__name__}: {e}'
-    return iout, f
+        iout = _SPEC.safe_impl(c)
+        try:
+            f = _SPEC.oracle(c, iout)
+        except CaseTimeout:
+            raise
+        except Exception as e:
+            f = f'oracle raised {type(e).__name__}: {e}'
+        return iout, f
+    except CaseTimeout:
+        return ['HARNESS-TIMEOUT'], f'the library did not return within {limit} CPU-seconds on this case (hang)'
+    finally:
+        signal.setitimer(signal.ITIMER_PROF, 0)
+        signal.signal(signal.SIGPROF, old)
 
 
 def _evaluate_all(spec, cases):
@@ -174,13 +214,27 @@ def run_check(spec, tier, seed):
 
     # ---- 4/5. correspondence + direct oracle ---------------------------
     corpus = spec.corpus()
-    generated = list(spec.cases(rng, tier))
+    try:
+        with watchdog(getattr(spec, 'GENERATION_TIMEOUT', 300)):
+            generated = list(spec.cases(rng, tier))
+    except CaseTimeout:
+        generated = []
+        breaks.append(('case-generation', {'error': 'case generation did not finish: a library call made while generating '
+                                                    'cases never returned (hang)', 'traceback': ''}))
+    except Exception as e:  # the library raised while cases were being generated (generators call it for sizes etc.)
+        generated = []
+        breaks.append(('case-generation', {'error': f'{type(e).__name__}: {e}',
+                                           'traceback': traceback.format_exc()[-1500:]}))
     allcases = corpus + generated
     lines, spans = [], []
     unrunnable = {}      # case index -> why the harness could not even set the case up against the library
     for ci, c in enumerate(allcases):
         try:
-            ml = spec.model_lines(c)
+            with watchdog(getattr(spec, 'CASE_TIMEOUT', 120)):
+                ml = spec.model_lines(c)
+        except CaseTimeout:
+            ml = []
+            unrunnable[ci] = 'preparing the case against the library never returned (hang)'
         except Exception as e:  # the library raised while the case was being prepared (e.g. while filling a queue)
             ml = []
             unrunnable[ci] = f'preparing the case against the library raised {type(e).__name__}: {e}'
@@ -277,6 +331,8 @@ def run_check(spec, tier, seed):
                 try:
                     c = next(gen)
                 except StopIteration:
+                    break
+                except Exception:
                     break
             searched += 1
             f = spec.fails(c)
